@@ -267,3 +267,29 @@ pub fn transfer_sum(key: &str) -> String {
     format!("result={} from_before={} from_after={} to_before={} to_after={}", r.map(|x| format!("{x:?}")).unwrap_or("ok".into()), from_bal, f,
         if to_bal == U256::MAX { "MAX".to_string() } else { to_bal.to_string() }, if t == U256::MAX { "MAX".to_string() } else { t.to_string() })
 }
+
+// ---------------------------------------------------------------- nothing leaks out of a rejected transaction
+pub fn evm_leak(func: &str) -> String {
+    use revm::primitives::TxKind;
+    use revm::Evm;
+    let mut db = CacheDB::new(EmptyDB::default());
+    db.insert_account_info(CALLER, AccountInfo { nonce: 0, balance: U256::from(1_000_000_000u64), code_hash: B256::default(), code: None });
+    let mut evm = Evm::builder()
+        .with_db(db)
+        .with_spec_id(SpecId::CANCUN)
+        .modify_tx_env(|tx| {
+            tx.caller = CALLER;
+            tx.transact_to = TxKind::Call(TARGET);
+            tx.gas_limit = 100_000;
+            tx.gas_price = U256::from(1);
+            tx.nonce = Some(7); // state nonce is 0: rejected by the state check, after the sender was loaded into the journal
+        })
+        .build();
+    let r = match func {
+        "transact" => evm.transact().is_err(),
+        "transact_preverified" => evm.transact_preverified().is_err(),
+        "preverify_transaction" => evm.preverify_transaction().is_err(),
+        _ => panic!("unknown function"),
+    };
+    format!("journal_accounts_after={} rejected={}", evm.context.evm.inner.journaled_state.state.len(), r)
+}
